@@ -33,6 +33,8 @@ use crate::common::*;
 use crate::config::Config;
 use crate::workers::socket::connection::{run_connection, ConnectionError};
 
+pub use self::connection::max_peers_fitting_response_buffer;
+
 struct ConnectionHandle {
     close_conn_sender: LocalSender<()>,
     valid_until: Rc<RefCell<ValidUntil>>,
